@@ -232,6 +232,9 @@ func newStore(flavour string) (storage.Store, func()) {
 }
 
 func exec(kind string, in []string) []string {
+	if kind == "stress" {
+		return execStress(in)
+	}
 	if kind != "sess" || len(in) != 3 {
 		return []string{"UNKNOWN-KIND"}
 	}
